@@ -1274,6 +1274,8 @@ impl Scenario for C09 {
     }
 
     fn run(&self, case: &Case, ctx: &Arc<RunCtx>) -> RunOut {
+        // switch threads only at this scenario's own layer's sites (see sched::Baton::allow)
+        crate::sched::set_allowed_sites(&["c09.", "rel."]);
         let mut out = RunOut::default();
         match case.mode {
             Mode::Stmt => {
